@@ -72,4 +72,7 @@ require (
 
 replace github.com/PowerDNS/lightningstream => /repo
 
+// the same sources as v1.9.3 plus a transaction hook (see third_party/lmdb-go/lmdb/txn.go)
+replace github.com/PowerDNS/lmdb-go => ../third_party/lmdb-go
+
 replace github.com/CrowdStrike/csproto => github.com/wojas/csproto v0.0.0-20260107092112-0e013c7984a2
